@@ -64,7 +64,9 @@ enum Cmd {
     Ring { entries: u32 },
     /// tag = the user_data put on the entry; 0 = a fresh one (the entry's own number)
     Push { r: usize, tag: u64, kind: String, f: usize, off: u64, bytes: Vec<u8>, len: usize, tgt: u64, bad: bool },
-    Submit { r: usize },
+    /// via: "submit" | "wait" (submit_and_wait) | "args" (submit_with_args, well-formed timespec) |
+    /// "badargs" (submit_with_args with nsec >= 1e9: the call must fail and leave the SQ alone)
+    Submit { r: usize, via: String },
     Sync { r: usize },
     Pop { r: usize },
     Tick { d: u64 },
@@ -79,6 +81,10 @@ enum Cmd {
     Readable { r: usize },
     /// (sim mode) the host software parks its handles outside the task and returns Ok(()) by itself
     Exit,
+    /// (sim mode) spawn a reactor task that parks in AsyncFd::readable() on the ring (one shot)
+    Park { r: usize },
+    /// (sim mode) is the reactor of this ring still parked?
+    Unpark { r: usize },
 }
 
 fn bytes_of(v: &Value) -> Vec<u8> {
@@ -101,7 +107,10 @@ fn parse_cmd(v: &Value) -> Option<Cmd> {
             tgt: us("tgt") as u64,
             bad: v["bad"].as_bool().unwrap_or(false),
         },
-        "submit" => Cmd::Submit { r: us("r") },
+        "submit" => Cmd::Submit { r: us("r"), via: v["via"].as_str().unwrap_or("submit").to_string() },
+        "submitbad" => Cmd::Submit { r: us("r"), via: "badargs".into() },
+        "park" => Cmd::Park { r: us("r") },
+        "unpark" => Cmd::Unpark { r: us("r") },
         "sync" => Cmd::Sync { r: us("r") },
         "pop" => Cmd::Pop { r: us("r") },
         "tick" => Cmd::Tick { d: v["d"].as_u64().unwrap_or(1) },
@@ -331,16 +340,24 @@ impl Env {
                 json!({"ev":"ring","r":pp.nrings,"entries":entries,"depth":depth})
             }
             Cmd::Push { r, tag, kind, f, off, bytes, len, tgt, bad } => self.push(*r, *tag, kind, *f, *off, bytes, *len, *tgt, *bad),
-            Cmd::Submit { r } => {
-                let res = self.rings[*r - 1].as_ref().expect("ring").submit();
+            Cmd::Submit { r, via } => {
+                let ring = self.rings[*r - 1].as_ref().expect("ring");
+                let good = turmoil_io_uring::types::Timespec::new().sec(1).nsec(999_999_999);
+                let bad = turmoil_io_uring::types::Timespec::new().nsec(1_000_000_000);
+                let res = match via.as_str() {
+                    "wait" => ring.submit_and_wait(1),
+                    "args" => ring.submitter().submit_with_args(1, &turmoil_io_uring::types::SubmitArgs::new().timespec(&good)),
+                    "badargs" => ring.submitter().submit_with_args(1, &turmoil_io_uring::types::SubmitArgs::new().timespec(&bad)),
+                    _ => ring.submit(),
+                };
                 match res {
                     Ok(n) => {
                         for o in self.p.borrow_mut().ops.iter_mut().filter(|o| o.ring == *r && o.st == "sq") {
                             o.st = "pend";
                         }
-                        json!({"ev":"submit","r":r,"ok":true,"n":n})
+                        json!({"ev":"submit","r":r,"ok":true,"n":n,"via":via})
                     }
-                    Err(_) => json!({"ev":"submit","r":r,"ok":false,"n":0}),
+                    Err(_) => json!({"ev":"submit","r":r,"ok":false,"n":0,"via":via}),
                 }
             }
             Cmd::Sync { r } => {
@@ -394,7 +411,9 @@ impl Env {
                 let (files, tfiles) = self.read_files();
                 json!({"ev":"shimw","f":f,"off":off,"bytes":bytes,"res":a,"tres":b,"files":files,"tfiles":tfiles})
             }
-            Cmd::Crash | Cmd::Drain { .. } | Cmd::Readable { .. } | Cmd::Exit => unreachable!("handled by the runner"),
+            Cmd::Crash | Cmd::Drain { .. } | Cmd::Readable { .. } | Cmd::Exit | Cmd::Park { .. } | Cmd::Unpark { .. } => {
+                unreachable!("handled by the runner")
+            }
         };
         rec::emit(ev.clone());
         ev
@@ -663,7 +682,7 @@ impl Direct {
                 self.env = Some(env);
                 json!({"ev":"drained"})
             }
-            Cmd::Readable { .. } | Cmd::Exit => json!({"ev":"note"}),
+            Cmd::Readable { .. } | Cmd::Exit | Cmd::Park { .. } | Cmd::Unpark { .. } => json!({"ev":"note"}),
             Cmd::Pop { r } => {
                 let mut env = self.env.take().unwrap();
                 let v = self.entered(|| env.pop_ev(*r));
@@ -740,6 +759,11 @@ fn compare(pred: &Value, obs: &Value) -> Result<bool, String> {
         "submit" | "sync" => {
             if pred["n"] != obs["n"] {
                 return Err("n".into());
+            }
+        }
+        "submitbad" => {
+            if obs["ok"] != false {
+                return Err("ok".into());
             }
         }
         "pop" => {
@@ -977,7 +1001,7 @@ fn gen_cmd(rng: &mut SmallRng, sh: &Shadow, cfg: &RunCfg, allow_crash: bool, sim
     let full = sh.sq[r - 1] >= sh.depth[r - 1];
     let x = rng.random_range(0..1000);
     if full && x < 300 && rng.random_range(0..5) != 0 {
-        return Cmd::Submit { r };
+        return Cmd::Submit { r, via: "submit".into() };
     }
     if x < 300 {
         // push
@@ -1028,7 +1052,9 @@ fn gen_cmd(rng: &mut SmallRng, sh: &Shadow, cfg: &RunCfg, allow_crash: bool, sim
             Cmd::Push { r, tag: 0, kind: "cancel".into(), f: 0, off: 0, bytes: vec![], len: 0, tgt, bad: rng.random_range(0..25) == 0 }
         }
     } else if x < 420 {
-        Cmd::Submit { r }
+        // every submit entry point, incl. the error path of submit_with_args (then usually a retry)
+        let via = ["submit", "submit", "submit", "submit", "submit", "submit", "wait", "args", "badargs", "badargs"][rng.random_range(0..10)];
+        Cmd::Submit { r, via: via.into() }
     } else if x < 540 {
         Cmd::Sync { r: held[rng.random_range(0..held.len())] }
     } else if x < 760 {
@@ -1093,7 +1119,11 @@ fn shadow_update(sh: &mut Shadow, c: &Cmd, obs: &Value) {
                 }
             }
         }
-        Cmd::Submit { r } => sh.sq[*r - 1] = 0,
+        Cmd::Submit { r, via } => {
+            if via != "badargs" {
+                sh.sq[*r - 1] = 0;
+            }
+        }
         Cmd::DropRing { r } => {
             sh.rings[*r - 1] = false;
             sh.zombie[*r - 1] = false;
@@ -1185,12 +1215,45 @@ async fn puppet(p: Rc<RefCell<Persist>>, sh: Rc<RefCell<SimShared>>, notify: Rc<
         rec::emit(ev.clone());
         sh.borrow_mut().results.push_back(ev);
     }
+    // rings with a reactor task currently parked in AsyncFd::readable()
+    let reactors: Rc<RefCell<std::collections::HashSet<usize>>> = Rc::new(RefCell::new(Default::default()));
     loop {
         notify.notified().await;
         loop {
             let c = sh.borrow_mut().cmds.pop_front();
             let Some(c) = c else { break };
             let v = match &c {
+                Cmd::Park { r } => {
+                    let fd = env.rings[*r - 1].as_ref().expect("ring").as_raw_fd();
+                    match AsyncFd::new(FdOnly(fd)) {
+                        Ok(afd) if !reactors.borrow().contains(r) => {
+                            reactors.borrow_mut().insert(*r);
+                            let (st, r2) = (reactors.clone(), *r);
+                            tokio::task::spawn_local(async move {
+                                let ok = afd.readable().await.is_ok();
+                                st.borrow_mut().remove(&r2);
+                                if ok {
+                                    rec::emit(json!({"ev":"readable","r":r2,"ok":true,"grace":0,"parked":true}));
+                                }
+                            });
+                            let ev = json!({"ev":"note","what":"park","r":r});
+                            rec::emit(ev.clone());
+                            ev
+                        }
+                        _ => json!({"ev":"note"}),
+                    }
+                }
+                Cmd::Unpark { r } => {
+                    if reactors.borrow().contains(r) {
+                        // still parked although the consumer waited lat_hi + 2 ticks since its last submit
+                        let grace = p.borrow().cfg.tick_us;
+                        let ev = json!({"ev":"readable","r":r,"ok":false,"grace":grace,"parked":true});
+                        rec::emit(ev.clone());
+                        ev
+                    } else {
+                        json!({"ev":"note"})
+                    }
+                }
                 Cmd::Pop { r } => env.pop_ev(*r),
                 Cmd::Drain { r } => {
                     env.drain(*r);
@@ -1206,7 +1269,7 @@ async fn puppet(p: Rc<RefCell<Persist>>, sh: Rc<RefCell<SimShared>>, notify: Rc<
                         Duration::from_micros(pp.cfg.lat_hi + 2 * pp.cfg.tick_us)
                     };
                     let ok = matches!(tokio::time::timeout(limit, afd.readable()).await, Ok(Ok(_)));
-                    let ev = json!({"ev":"readable","r":r,"ok":ok,"from":t0.as_micros() as u64,"to":turmoil::elapsed().as_micros() as u64});
+                    let ev = json!({"ev":"readable","r":r,"ok":ok,"grace":0,"from":t0.as_micros() as u64,"to":turmoil::elapsed().as_micros() as u64});
                     rec::emit(ev.clone());
                     sh.borrow_mut().busy = false;
                     ev
@@ -1280,7 +1343,68 @@ fn random_sim(rng: &mut SmallRng, cfg: &RunCfg, steps: usize, stall_ms: u64, exi
         let _ = sh;
     };
     let mut i = 0;
+    let mut episodes = 0;
     while i < steps {
+        // A reactor episode: a task parks in AsyncFd::readable() on a quiet ring *before* the next
+        // submissions are made; the consumer then submits a small batch (half of the time only
+        // AsyncCancels whose target is no longer in the ring), touches nothing for lat_hi + 2 ticks,
+        // and looks whether the reactor was woken.
+        let alive_now: Vec<usize> = (1..=shd.rings.len()).filter(|r| shd.rings[*r - 1]).collect();
+        if episodes < 2 && i > 8 && !alive_now.is_empty() && rng.random_range(0..10) == 0 {
+            episodes += 1;
+            i += 8;
+            let r = alive_now[rng.random_range(0..alive_now.len())];
+            let wait = cfg.lat_hi.div_ceil(cfg.tick_us) + 2;
+            let mut run = |cmds: Vec<Cmd>, shd: &mut Shadow, k: &mut u64, sim: &mut turmoil::Sim<'_>| {
+                for c in &cmds {
+                    match c {
+                        Cmd::Push { r, .. } => {
+                            let full = shd.sq[*r - 1] >= shd.depth[*r - 1];
+                            shadow_update(shd, c, &json!({"ok": !full}));
+                        }
+                        Cmd::Drain { r } => shd.outstanding.retain(|(_, rr)| rr != r),
+                        _ => shadow_update(shd, c, &json!({})),
+                    }
+                }
+                sh.borrow_mut().cmds.extend(cmds);
+                step(sim, k, &sh);
+                let res: Vec<Value> = sh.borrow_mut().results.drain(..).collect();
+                for v in res {
+                    if v["ev"] == "cqe" {
+                        shadow_cqe(shd, v["tag"].as_u64().unwrap_or(0));
+                    }
+                }
+            };
+            run(vec![Cmd::Submit { r, via: "submit".into() }], &mut shd, &mut k, &mut sim);
+            for _ in 0..wait {
+                run(vec![], &mut shd, &mut k, &mut sim);
+            }
+            run(vec![Cmd::Drain { r }, Cmd::Park { r }], &mut shd, &mut k, &mut sim);
+            run(vec![], &mut shd, &mut k, &mut sim);
+            let mut batch: Vec<Cmd> = Vec::new();
+            let cancel_only = rng.random_range(0..2) == 0;
+            let n = rng.random_range(1..=2usize).min(shd.depth[r - 1].max(1));
+            for _ in 0..n {
+                let gone = if !shd.completed.is_empty() && rng.random_range(0..2) == 0 {
+                    shd.completed[rng.random_range(0..shd.completed.len())]
+                } else {
+                    9999
+                };
+                let f = rng.random_range(1..=cfg.nf);
+                if cancel_only || rng.random_range(0..3) == 0 || !shd.fopen[f - 1] {
+                    batch.push(Cmd::Push { r, tag: 0, kind: "cancel".into(), f: 0, off: 0, bytes: vec![], len: 0, tgt: gone, bad: false });
+                } else {
+                    batch.push(Cmd::Push { r, tag: 0, kind: "fsync".into(), f, off: 0, bytes: vec![], len: 0, tgt: 0, bad: false });
+                }
+            }
+            batch.push(Cmd::Submit { r, via: "submit".into() });
+            run(batch, &mut shd, &mut k, &mut sim);
+            for _ in 0..wait {
+                run(vec![], &mut shd, &mut k, &mut sim);
+            }
+            run(vec![Cmd::Unpark { r }], &mut shd, &mut k, &mut sim);
+            continue;
+        }
         // the commands of one tick
         let burst = rng.random_range(1..=5);
         let mut issued: Vec<Cmd> = Vec::new();
